@@ -68,8 +68,12 @@ class FaultFns(Fns):
         return r
 
 
+RANDOM_OPS = [('reshuffle', 3), ('reshuffle', 11), ('localshuffle', 2, 4)]
+
+
 def alphabet(n, kind):
-    return [op for op in programs.alphabet(n, kind) if op[0] not in EXCLUDED] + FAULT_OPS
+    return [op for op in programs.alphabet(n, kind) if op[0] not in EXCLUDED] \
+        + FAULT_OPS + RANDOM_OPS
 
 
 def consume(ds, limit, k=None):
@@ -142,6 +146,8 @@ def count_oracle_applies(prog):
                 return False
         if op[0] == 'tile' and op[1] > 1:
             return False
+        if op[0] in ('reshuffle', 'localshuffle'):
+            return False
     return True
 
 
@@ -164,9 +170,28 @@ def expected_trace(prog, fe, access):
     return out
 
 
+def shared_random(prog):
+    """A random stage that is referenced twice further up (ds.zip(ds), tile):
+    the wrapper profiles two *copies*, which changes how the two references
+    share the in-place permutation state (the mechanism of the known finding
+    C12-reshuffle-shared-permutation); equal seeds then give another order."""
+    seen_random = False
+    for op in prog['ops']:
+        if op[0] in ('reshuffle', 'localshuffle'):
+            seen_random = True
+        elif seen_random and ((op[0] in ('concat', 'intersperse', 'zip', 'key_zip')
+                               and not isinstance(op[1], dict))
+                              or (op[0] == 'tile' and op[1] > 1)):
+            return True
+    return False
+
+
 def check(ld, prog, res):
     status, m = programs.classify(prog)
     if status != 'ok' or not m.finite:
+        return
+    if shared_random(prog):
+        res.count('skipped_shared_random_stage')
         return
     case = {'prog': prog}
     lo = op_name(prog['ops'][-1]) if prog['ops'] else 'source'
@@ -325,6 +350,8 @@ def run_shard(spec, res):
                 ops.insert(rng.randint(0, len(ops)), rng.choice(FAULT_OPS))
             if rng.random() < 0.4:
                 ops.insert(rng.randint(0, len(ops)), ('catch',))
+            if rng.random() < 0.3:
+                ops.insert(rng.randint(0, len(ops)), rng.choice(RANDOM_OPS))
             check(ld, {'src': prog['src'], 'ops': ops}, res)
 
 
